@@ -374,8 +374,132 @@ def check_adjacency(ctx, R="C20.adjacent"):
         ctx.ok(R, helper, "elements are looked up within the Euclidean distance `tolerance` of the point (point.buffer)")
 
 
+
+XP = "scenic.formats.opendrive.xodr_parser"
+
+
+def check_lane_adjacency(ctx, R="C20.adjacent"):
+    """second part of C20.adjacent: the lane-level lists"""
+    model = ctx.model
+    fn = model.func(XP, "Road.toScenicRoad")
+    asg = [n for n in walk_local(fn) if isinstance(n, ast.Assign) and any(isinstance(t, ast.Attribute) and t.attr == "adjacentLanes" for t in n.targets)]
+    lane_level = []
+    for n in asg:
+        t = next(t for t in n.targets if isinstance(t, ast.Attribute) and t.attr == "adjacentLanes")
+        loop = next((a for a in ancestors(n) if isinstance(a, ast.For) and isinstance(a.target, ast.Name) and unparse(t.value) == a.target.id), None)
+        if loop is not None and not any(isinstance(c, ast.Attribute) and c.attr in ("_laneToLeft", "_laneToRight") for c in ast.walk(n.value)):
+            lane_level.append((n, loop))
+    if not lane_level:
+        raise AnalysisError("shape not recognised: lane-level adjacentLanes in Road.toScenicRoad")
+    for n, loop in lane_level:
+        lv = loop.target.id
+        # every place the collected value is built from: iterations over sections of this lane
+        srcs = []
+        names = {x.id for x in ast.walk(n.value) if isinstance(x, ast.Name)}
+        region = [n] + [m for m in ast.walk(loop) if isinstance(m, (ast.For, ast.comprehension))]
+        for m in ast.walk(loop):
+            it = m.iter if isinstance(m, (ast.For, ast.comprehension)) else None
+            if it is not None and f"{lv}.sections" in unparse(it):
+                srcs.append(it)
+        whole = [it for it in srcs if unparse(it) in (f"{lv}.sections", f"tuple({lv}.sections)", f"list({lv}.sections)")]
+        partial = [x for x in ast.walk(loop) if isinstance(x, ast.Subscript) and unparse(x.value) == f"{lv}.sections"]
+        if whole and not partial:
+            ctx.ok(R, n, f"a lane's adjacent lanes are collected from every one of its sections (`{unparse(whole[0])}`)")
+        else:
+            ctx.finding(
+                R,
+                n,
+                "lane adjacency from some sections only",
+                f"Road.toScenicRoad sets `{unparse(n.targets[0])}` from `{norm_text(partial[0], 40) if partial else 'no iteration over ' + lv + '.sections'}`, not from all sections of the lane: a lane that gains a "
+                f"neighbour part-way along the road omits it although that neighbour lists the lane (adjacency is no longer reciprocal)",
+            )
+
+
+def check_cover(ctx, R="C20.cover"):
+    ctx.rule(
+        R,
+        "aggregate regions consist of elements: every `...Region` argument with which the OpenDRIVE importer builds the Network is the "
+        "union (combine / PolygonalRegion.unionAll) of element collections that are passed to the same Network, and the defaults computed in "
+        "Network.__attrs_post_init__ are unions of the network's own collections or aggregate regions; so every point of the drivable area "
+        "lies in some element the point lookups can return (an extra polygon, e.g. the filled gaps between roads, belongs to no element)",
+    )
+    model = ctx.model
+    fn = model.func(XP, "RoadMap.toScenicNetwork")
+    calls = [c for c in walk_local(fn) if isinstance(c, ast.Call) and (dotted(c.func) or "").endswith("Network") and any(k.arg == "elements" for k in c.keywords)]
+    if len(calls) != 1:
+        raise AnalysisError("shape not recognised: the Network(...) construction of RoadMap.toScenicNetwork")
+    call = calls[0]
+
+    def strip(e):
+        while isinstance(e, ast.Call) and dotted(e.func) in ("tuple", "list") and len(e.args) == 1:
+            e = e.args[0]
+        return e
+
+    colls = {unparse(strip(k.value)) for k in call.keywords if k.arg and not k.arg.endswith("Region") and k.arg not in ("elements", "tolerance") and isinstance(strip(k.value), ast.Name)}
+    # local union helpers: functions of one parameter returning PolygonalRegion.unionAll(<parameter>, ...)
+    helpers = set()
+    for f in ast.walk(fn):
+        if isinstance(f, ast.FunctionDef) and f is not fn and len(f.args.args) == 1:
+            rets = [r for r in lib.returns_of(f) if r.value is not None]
+            if len(rets) == 1 and isinstance(rets[0].value, ast.Call) and (dotted(rets[0].value.func) or "").endswith("unionAll") and rets[0].value.args and unparse(rets[0].value.args[0]) == f.args.args[0].arg:
+                helpers.add(f.name)
+    n = 0
+    for k in call.keywords:
+        if not (k.arg and k.arg.endswith("Region")):
+            continue
+        n += 1
+        v = k.value
+        ok = False
+        parts = None
+        if isinstance(v, ast.Call) and (dotted(v.func) in helpers or (dotted(v.func) or "").endswith("unionAll")) and v.args:
+            a = strip(v.args[0])
+            if isinstance(a, ast.Name):
+                a2 = lib.local_value(fn, a.id)
+                a = strip(a2) if a2 is not None and not isinstance(a2, ast.Name) and unparse(a) not in colls else a
+            if isinstance(a, ast.Name):
+                parts = [a.id]
+            elif isinstance(a, (ast.List, ast.Tuple)):
+                parts = [unparse(e.value) if isinstance(e, ast.Starred) else unparse(e) for e in a.elts]
+            elif isinstance(a, ast.BinOp) and isinstance(a.op, ast.Add):
+                parts = [unparse(strip(a.left)), unparse(strip(a.right))]
+            ok = parts is not None and all(p_ in colls for p_ in parts)
+        if ok:
+            ctx.ok(R, k.value, f"{k.arg} is the union of the element collections {parts}")
+        else:
+            ctx.finding(
+                R,
+                k.value,
+                f"{k.arg} not a union of element collections",
+                f"RoadMap.toScenicNetwork passes {k.arg}=`{norm_text(v, 70)}`, which is not the union of element collections handed to the same Network ({sorted(colls)}): "
+                f"points of that region outside every element (e.g. filled gaps between roads) are drivable but elementAt / roadAt / laneAt / intersectionAt find nothing there",
+            )
+    ctx.floor(R, n, 4, "aggregate regions passed by the importer")
+    post = model.func(RD, "Network.__attrs_post_init__")
+    m = 0
+    for a in walk_local(post):
+        if isinstance(a, ast.Assign) and len(a.targets) == 1 and isinstance(a.targets[0], ast.Attribute) and unparse(a.targets[0].value) == "self" and a.targets[0].attr.endswith("Region") and isinstance(a.value, ast.Call):
+            v = a.value
+            # areas only (the curb is a polyline assembled from edges, not something a point lookup covers)
+            if not (dotted(v.func) == "PolygonalRegion.unionAll" or (isinstance(v.func, ast.Attribute) and v.func.attr == "union")):
+                continue
+            m += 1
+            args = list(v.args[:1]) if (dotted(v.func) or "").endswith("unionAll") else [v.func.value] + list(v.args[:1])
+            flat = []
+            for x in args:
+                x = strip(x)
+                flat.extend(x.elts if isinstance(x, (ast.Tuple, ast.List)) else [x])
+            good = all(isinstance(x, ast.Attribute) and unparse(x.value) == "self" for x in flat) and flat
+            if good:
+                ctx.ok(R, a, f"default {a.targets[0].attr} = union of {[unparse(x) for x in flat]}")
+            else:
+                ctx.finding(R, a, f"default {a.targets[0].attr}", f"Network.__attrs_post_init__ computes {a.targets[0].attr} as `{norm_text(v, 70)}`, not as a union of the network's own collections / regions")
+    ctx.floor(R, m, 6, "default aggregate regions of Network")
+
+
 def check(ctx):
     check_adjacency(ctx)
+    check_lane_adjacency(ctx)
+    check_cover(ctx)
     check_cache_guard(ctx)
     check_layout(ctx)
     check_reconnect(ctx)
